@@ -245,8 +245,16 @@ pub fn run(tier: &str) -> Result<Report, String> {
         }
         rep.set("wide_models", json!(big));
     }
+    // two-step histories (state carried between calls): warm-up with domain-restricted quantifiers on a look-alike graph
+    {
+        let units: Vec<_> = nets.iter().filter(|b| b.name == "con2").cloned().collect();
+        let fam = crate::history::family(tier, 3, &units);
+        crate::history::run(&mut rep, &fam, crate::history::WARM_EXT, crate::history::PROBE_EXT, ck, 0)?;
+        crate::history::run(&mut rep, &fam, crate::history::WARM_EXT, crate::history::PROBE_EXT, ck, 3)?;
+        slices.push(json!({"part": "two-step histories", "family": fam.describe, "warm": crate::history::WARM_EXT.len(), "probes": crate::history::PROBE_EXT.len(), "label_families": ["mixed", "disjoint"]}));
+    }
     rep.set("slices", json!(slices));
-    rep.rule = "all closed extended formulae with at most max_nodes nodes that contain a wild-card or a domain, plus the extended template families (nested and repeated domains, the same inner domain under different outer domains, pattern and duplicate shapes inside domain scopes, a closed sub-formula inside a restricted scope next to a jump and again outside it) and the pair family (every ordered pair of the collision alphabet joined by & / |, and nested as Q{x} in %d%: (A & @{x}: B)), x every label family (context-set assignment; the mixed family also under the label names 1, false, True / 0, true, V, under non-ASCII label names, with the context sets loaded from a bundle that also holds decoy entries (sub-directory, other suffixes; stored before / after the real entries), with a public evaluation context extended twice (second registration of every label with the complement set), and with every quantifier written in its long spelling \\exists / \\forall / \\bind / \\jump), through model_check_extended_formula(_dirty), compared with the explicit-state oracle on every state x valid colour (and: raw results inside the unit set, independent of spare variables); plus the operator sweep: every unary/binary operator and every quantifier form with/without domains on EVERY coloured set (and every pair of sets) of tiny networks; plus, on synthetic wide models with more than 2^53 state x colour pairs, the three README equivalences for 7 bodies x 7 domains (full, empty, all but one state, all but one (state, colour) pair, one state, ...) and the closed forms `!{x} in %d%: True` = d, `3{x} in %d%: @{x}: ~%d%` = empty, `V{x} in %d%: @{x}: %d%` = everything; distinct_nontrivial = distinct non-trivial (network, labels, verdict table)".into();
+    rep.rule = "plus two-step histories: ordered pairs of look-alike graphs (networks over a, b with identical symbolic encoding but other update functions, with and without a shared function symbol; the same network with the unit set restricted to every second / the last colour) - warm-up formulae on the first graph, then probe formulae on the second on one fresh OS thread, every probe result against the explicit-state oracle and the unit set; all closed extended formulae with at most max_nodes nodes that contain a wild-card or a domain, plus the extended template families (nested and repeated domains, the same inner domain under different outer domains, pattern and duplicate shapes inside domain scopes, a closed sub-formula inside a restricted scope next to a jump and again outside it) and the pair family (every ordered pair of the collision alphabet joined by & / |, and nested as Q{x} in %d%: (A & @{x}: B)), x every label family (context-set assignment; the mixed family also under the label names 1, false, True / 0, true, V, under non-ASCII label names, with the context sets loaded from a bundle that also holds decoy entries (sub-directory, other suffixes; stored before / after the real entries), with a public evaluation context extended twice (second registration of every label with the complement set), and with every quantifier written in its long spelling \\exists / \\forall / \\bind / \\jump), through model_check_extended_formula(_dirty), compared with the explicit-state oracle on every state x valid colour (and: raw results inside the unit set, independent of spare variables); plus the operator sweep: every unary/binary operator and every quantifier form with/without domains on EVERY coloured set (and every pair of sets) of tiny networks; plus, on synthetic wide models with more than 2^53 state x colour pairs, the three README equivalences for 7 bodies x 7 domains (full, empty, all but one state, all but one (state, colour) pair, one state, ...) and the closed forms `!{x} in %d%: True` = d, `3{x} in %d%: @{x}: ~%d%` = empty, `V{x} in %d%: @{x}: %d%` = everything; distinct_nontrivial = distinct non-trivial (network, labels, verdict table)".into();
     Ok(rep)
 }
 
